@@ -431,10 +431,12 @@ func (vc *VC) lockCall(fr *Frame, st *State, c *ssa.CallCommon, key string, pos 
 	switch key {
 	case "sync.Mutex.Lock", "sync.RWMutex.Lock":
 		st.locks[id] = 2
+		st.locks["#n:"+id]++ // acquisition count (spec builtin lockepoch): separates critical sections
 	case "sync.RWMutex.RLock":
 		if st.locks[id] < 1 {
 			st.locks[id] = 1
 		}
+		st.locks["#n:"+id]++
 	default:
 		delete(st.locks, id)
 	}
